@@ -56,6 +56,15 @@ def gen_case(rng, quick=True):
     dem = [rng.choice([0, 0, 1, 2, 3, 5]) for _ in range(n)]
     ln = [rng.choice([0, 10, 20, 35, 50]) for _ in links]
     c = dict(n=n, links=links, layer=layer, overlap=overlap, dem=dem, len=ln, dup=dup)
+    r2 = rng.random()
+    if r2 < 0.15:
+        c["dem_scale"] = rng.choice([1e-9, 2e-9, 1e-10, 1e-12])   # demands of 1e-12 .. 1e-8: non-zero, the ratio is still min/max
+        c["dem"] = [rng.choice([1, 2, 3, 5]) for _ in range(n)]
+    elif r2 < 0.3:
+        # segments without pipe length: pumps / valves only (length 0 on both sides of a valve) next to a few pipes
+        c["len"] = [0 if rng.random() < 0.8 else rng.choice([10, 20]) for _ in links]
+        if rng.random() < 0.5:
+            c["dem"] = [0 if rng.random() < 0.8 else 1 for _ in range(n)]
     if rng.random() < 0.4:
         # the layer as a DataFrame whose two NAMED columns come in the other order, with extra columns, with a non-default index
         # (valve_layer[['node', 'link']], a GIS table with more attributes, rows selected from a larger table)
@@ -80,12 +89,17 @@ def gen_case(rng, quick=True):
     return c
 
 
+def demand_values(c):
+    sc = c.get("dem_scale")
+    return [float(d) * sc for d in c["dem"]] if sc else [float(d) for d in c["dem"]]
+
+
 def effective(c):
-    """the case as the attribute formulas see it: names missing from the Series count 0"""
-    if not (c.get("dem_missing") or c.get("len_missing")):
+    """the case as the attribute formulas see it: names missing from the Series count 0; scaled demands as the exact rationals of the doubles"""
+    if not (c.get("dem_missing") or c.get("len_missing") or c.get("dem_scale")):
         return c
     e = dict(c)
-    e["dem"] = [0 if i in c.get("dem_missing", []) else d for i, d in enumerate(c["dem"])]
+    e["dem"] = [0 if i in c.get("dem_missing", []) else (Fraction(x) if c.get("dem_scale") else d) for i, (d, x) in enumerate(zip(c["dem"], demand_values(c)))]
     e["len"] = [0 if i in c.get("len_missing", []) else d for i, d in enumerate(c["len"])]
     return e
 
@@ -243,7 +257,7 @@ def run_impl(wntr, c):
         out["link"] = [int(ls[x]) for x in ln]
         out["sizes"] = {int(s): (int(sz.loc[s, "node"]), int(sz.loc[s, "link"])) for s in sz.index}
         out["layer_index_after"] = [unidx(i) for i in layer.index]
-        dem = pd.Series([float(x) for x in c["dem"]], index=nn)
+        dem = pd.Series(demand_values(c), index=nn)
         length = pd.Series([float(x) for x in c["len"]], index=ln)
         if c.get("dem_missing"):
             dem = dem.drop([nn[i] for i in c["dem_missing"]])
@@ -265,7 +279,7 @@ def line_of(c):
     c = effective(c)
     return "seg %d | %s | %s | %s | %s" % (
         c["n"], ",".join("%d-%d" % l for l in c["links"]), ",".join("%d-%d" % tuple(r) for r in c["layer"]),
-        " ".join("%d/1" % d for d in c["dem"]), " ".join("%d/1" % d for d in c["len"]))
+        " ".join("%d/%d" % (Fraction(d).numerator, Fraction(d).denominator) for d in c["dem"]), " ".join("%d/1" % d for d in c["len"]))
 
 
 def parse_model(s):
@@ -344,6 +358,10 @@ class C18(Check):
 
     def judge(self, ctx, c, out, failures, broken, model_line):
         sn, sl, sattr = spec(effective(c))
+        if c.get("dem_scale"):
+            ctx.count("demands:tiny")
+        if c["len"] and sum(1 for x in c["len"] if x == 0) * 2 > len(c["len"]):
+            ctx.count("lengths:mostly-zero")
         if c.get("layer_form"):
             ctx.count("layer-form:" + c["layer_form"])
         if c.get("style") == "tokens":
@@ -400,7 +418,7 @@ class C18(Check):
                 if onum != num:
                     failures.append(Failure("num-surround", "valve row %d: num_surround %d, expected %d" % (i, onum, num), dict(rep, row=i, observed=onum, expected=num)))
                     return
-                if abs(od - float(d)) > 1e-12 or abs(ol - float(l)) > 1e-12:
+                if not (abs(od - float(d)) <= 1e-12 and abs(ol - float(l)) <= 1e-12):  # also catches NaN
                     failures.append(Failure("increase", "valve row %d: demand/length increase %r/%r, expected %s/%s" % (i, od, ol, d, l),
                                             dict(rep, row=i, observed=[od, ol], expected=[str(d), str(l)])))
                     return
